@@ -159,28 +159,40 @@ fn effects_debug_single_names() {
     kani::cover!(i == 12);
 }
 
-/// For every effect set the debug text names exactly the members, in declaration order.
-#[kani::proof]
-#[kani::unwind(18)]
-fn effects_debug_names() {
-    use core::fmt::Write as _;
-    let a = any_effect_bits();
-    let ea = effects_from_bits(a);
-    let mut t = DebugTokens {
-        stage: 0,
-        seen: 0,
-        last: -1,
-        ok: true,
-        recognised: true,
+macro_rules! effects_debug_names_case {
+    ($name:ident, $mask:expr) => {
+        /// For every effect set within the mask the debug text names exactly the members,
+        /// in declaration order.
+        #[kani::proof]
+        #[kani::unwind(18)]
+        fn $name() {
+            use core::fmt::Write as _;
+            let a = any_effect_bits();
+            kani::assume(a & !$mask == 0);
+            let ea = effects_from_bits(a);
+            let mut t = DebugTokens {
+                stage: 0,
+                seen: 0,
+                last: -1,
+                ok: true,
+                recognised: true,
+            };
+            let _ = write!(t, "{:?}", ea);
+            assert!(t.recognised, "HARNESS-LIMIT: debug text not delivered as whole fragments");
+            assert!(t.ok && t.stage == 3, "debug text structure");
+            assert!(t.seen == a, "debug text names exactly the members");
+            kani::cover!(a == $mask);
+            kani::cover!(a == 0);
+            kani::cover!(a.count_ones() == 2);
+        }
     };
-    let _ = write!(t, "{:?}", ea);
-    assert!(t.recognised, "HARNESS-LIMIT: debug text not delivered as whole fragments");
-    assert!(t.ok && t.stage == 3, "debug text structure");
-    assert!(t.seen == a, "debug text names exactly the members");
-    kani::cover!(a == 0xFFF);
-    kani::cover!(a == 0);
-    kani::cover!(a.count_ones() == 2);
 }
+// complete (all 4096 sets): needs more than 24 GB, thorough tier
+effects_debug_names_case!(effects_debug_names, 0xFFFu16);
+// quick tier: three 6-bit windows (first six, last six, three from each end)
+effects_debug_names_case!(effects_debug_names_lo, 0x03Fu16);
+effects_debug_names_case!(effects_debug_names_hi, 0xFC0u16);
+effects_debug_names_case!(effects_debug_names_ends, 0xE07u16);
 
 #[kani::proof]
 #[kani::unwind(14)]
